@@ -35,15 +35,19 @@ import (
 //     so slow that this does not hold, the case is marked invalid and all later counts are answered
 //     `-` (not determined) instead of being compared;
 //   - "early" is judged on the real clock per firing: firing k of a registration made at real time r
-//     must not come before r + after + k*interval - tick - 1ms (the library bound: a timer leaves the
-//     wheel at or after its expiration truncated to the tick; 1 ms for millisecond truncation). An
-//     early firing appends ` early` to the counts line.
+//     must not come before r + after + k*interval - earlySlackMs (schedulerTask.Next waits for the
+//     expiration of the run that is starting, whenever the wheel hands the timer out; the slack covers
+//     the millisecond truncation of expirations and reading two clocks). An early firing appends
+//     ` early` to the counts line.
 //
 // A correct implementation therefore answers exactly what the model answers whenever the answer is
 // not `-`: more firings than the model = over-firing / firing after cancel or replace; fewer = lost.
 
 const (
 	tickMs       = 10
+	// earlySlackMs: since the fix "a task is not run before its due time" a firing never comes before its
+	// due time; 1 ms for the millisecond truncation of the wheel's expirations + 1 ms for reading two clocks
+	earlySlackMs = 2
 	marginAfter  = 20 // ms: a due time before a decision is at least this far before it (virtual)
 	marginBefore = 70 // ms: a due time after a decision is at least this far after it (virtual)
 	cancelMargin = 50 * time.Millisecond
@@ -87,7 +91,7 @@ func (r *sreg) fire() {
 	k := r.count.Add(1) - 1
 	if r.cron {
 		ms := now.UnixMilli() % 1000
-		if ms >= 500 && ms < 1000-tickMs-1 {
+		if ms >= 500 && ms < 1000-earlySlackMs {
 			r.early.Store(true)
 		}
 		return
@@ -110,7 +114,7 @@ func (r *sreg) fire() {
 // goroutine per firing: when it catches up after a delay two firings can overtake each other, and
 // "the k-th callback to arrive" need not be the k-th firing.
 func tooMany(base time.Time, after, interval int, now time.Time, started int64) bool {
-	slack := time.Duration(tickMs+1) * time.Millisecond
+	slack := time.Duration(earlySlackMs) * time.Millisecond
 	d := now.Add(slack).Sub(base) - time.Duration(after)*time.Millisecond
 	if d < 0 {
 		return started > 0
